@@ -43,7 +43,10 @@ def check(run: Run) -> None:
         raise AnalysisError("remap_by_types no longer contains one transformer")
     tt = classes[0]
 
+    from ..normalise import unrolled
+
     def stores(fi: FuncInfo):
+        fi = unrolled(m, fi)  # recording may go through a small private procedure (self._record_type(a, b, t))
         fa = ctx.analysis(fi)
         out = []
         for n in own_nodes(fi):
@@ -57,7 +60,7 @@ def check(run: Run) -> None:
         f = tt.methods.get(name)
         if f is None:
             raise AnalysisError(f"anchor vanished: type_transformer.{name}")
-        return f
+        return unrolled(m, f)
 
     BOOL = ("global", "builtins.bool")
     # Compare / BoolOp
